@@ -928,6 +928,29 @@ pub fn c08(cfg: &Config, tr: &Trace, an: &Analysis, out: &mut Vec<Violation>) {
             ));
         }
     }
+    // a failure that is retried (and no parser error) must not cut the run
+    let any_err = an.delivered.iter().any(|i| matches!(cfg.items[*i], Item::Err(_)));
+    if tr.ended && an.first_final_failure.is_none() && !any_err {
+        for sc in &an.scens {
+            if sc.attempts.is_empty() {
+                out.push(v(
+                    "C08",
+                    "cut-without-final-failure",
+                    format!("fail-fast: {} never started although nothing failed finally", sc.info.name),
+                ));
+                break;
+            }
+            let last = sc.attempts.iter().max_by_key(|a| a.current).unwrap();
+            if last.has_failure(tr) && last.retries.is_some_and(|(_, left)| left > 0) {
+                out.push(v(
+                    "C08",
+                    "cut-without-final-failure",
+                    format!("fail-fast: {} failed with retries left but was not retried", sc.info.name),
+                ));
+                break;
+            }
+        }
+    }
     // no item pulled after the first parser error
     if let Some(pos) = an.delivered.iter().position(|i| matches!(cfg.items[*i], Item::Err(_))) {
         if an.delivered.len() > pos + 1 {
